@@ -6,6 +6,8 @@ ops:
 * `consts`                    → numeric values of the state and event constants
 * `tr <state> <event>`        → next state of `transition`, `panic` outside the defined table
 * `disc <13 fields>`          → `1` if `shouldDiscard`, else `0`
+* `jit <interval ns> <detect mult> <pct>` → `computeInterval` with a generator returning pct
+* `jitconsts`                 → jitter constants
 * `new`                       → a session starts running (answers its state: 1 = Down)
 * `recv <r> <obs>` | `chg <obs>` | `send <obs>` | `fin <obs>`
                               → the local state the model expects at that callback, or
@@ -53,6 +55,14 @@ def handle (o : Obs) : List String → Obs × String
       some poll, some fin, some echo, some dem =>
       (o, Driver.boolStr (shouldDiscard ⟨ver, auth, len, mult, mp, my, your, st, aht, poll, fin, echo, dem⟩))
     | _, _, _, _, _, _, _, _, _, _, _, _, _ => (o, "bad-op")
+  | ["jit", iv, mult, pct] =>
+    match iv.toNat?, mult.toNat?, pct.toNat? with
+    | some iv, some mult, some pct =>
+      (match computeInterval iv mult pct with
+       | some d => (o, toString d)
+       | none => (o, "panic"))
+    | _, _, _ => (o, "bad-op")
+  | ["jitconsts"] => (o, s!"{minJitter} {minJitterDetectMult1} {maxJitter}")
   | ["new"] => (Obs.init, toString Obs.init.cur.toNat)
   | ["recv", r, obs] =>
     match r.toNat? >>= St.ofNat? with
